@@ -286,6 +286,87 @@ theorem sig_field_no_panic (valid : Bytes → Bool) (s : Bytes) : sigFromHex val
   | err => intro hc; cases hc
   | panic st => exact absurd hu (hnp st)
 
+/-! ## the API's printable output (`api/src/types.rs`) -/
+
+/-- The reader of `OutputPrintable` takes its panic branch EXACTLY when the five keys it tests are
+there and `block_height` is not (`block_height.unwrap()` on a key the `is_none()` test forgot).
+The property "no API decoder panics" is false for this reader as transliterated; on the real code:
+`serapi probe`. -/
+theorem outputPrintable_panics_iff (k : OpKeys) :
+    outputPrintableFinish k = .panic
+      ↔ (k.outputType = true ∧ k.commit = true ∧ k.spent = true ∧ k.proofHash = true ∧ k.mmrIndex = true
+          ∧ k.blockHeight = false) := by
+  obtain ⟨a, b, c, d, e, f, g, h⟩ := k
+  cases a <;> cases b <;> cases c <;> cases e <;> cases f <;> cases h <;> simp [outputPrintableFinish]
+
+/-- the witness: every key but `block_height` -/
+example : outputPrintableFinish ⟨true, true, true, true, true, false, true, true⟩ = .panic := by decide
+
+/-- `proof` and `merkle_proof` are optional, and with all six others present the value is returned -/
+theorem outputPrintable_ok_iff (k : OpKeys) :
+    outputPrintableFinish k = .ok
+      ↔ (k.outputType = true ∧ k.commit = true ∧ k.spent = true ∧ k.proofHash = true ∧ k.mmrIndex = true
+          ∧ k.blockHeight = true) := by
+  obtain ⟨a, b, c, d, e, f, g, h⟩ := k
+  cases a <;> cases b <;> cases c <;> cases e <;> cases f <;> cases h <;> simp [outputPrintableFinish]
+
+/-- `OutputPrintable::range_proof()` panics EXACTLY when the proof string is hex of fewer than 675
+bytes (`&p_vec[..675]`); `serapi probe` on the real code -/
+theorem rangeProofHelper_panics_iff (p : Option Bytes) :
+    rangeProofHelper p = .panic ↔ ∃ s b, p = some s ∧ utilFromHex s = .ok b ∧ b.length < MAX_PROOF := by
+  cases p with
+  | none => simp [rangeProofHelper]
+  | some s =>
+    have hnp := GV.Dec.utilFromHex_noPanic s
+    cases hu : utilFromHex s with
+    | ok b =>
+      by_cases hl : b.length < MAX_PROOF
+      · simp only [rangeProofHelper, ofHex, hu, hl, ↓reduceIte, true_iff]
+        exact ⟨s, b, rfl, hu, hl⟩
+      · simp only [rangeProofHelper, ofHex, hu, hl, ↓reduceIte]
+        constructor
+        · intro h; cases h
+        · rintro ⟨s', b', hs, hb', hl'⟩
+          cases hs
+          rw [hu] at hb'
+          cases hb'
+          exact absurd hl' hl
+    | err =>
+      simp only [rangeProofHelper, ofHex, hu]
+      constructor
+      · intro h; cases h
+      · rintro ⟨s', b', hs, hb', _⟩
+        cases hs
+        rw [hu] at hb'
+        cases hb'
+    | panic st => exact absurd hu (hnp st)
+
+/-- on what the node itself writes (a full 675-byte proof as hex) the helper returns it -/
+theorem rangeProofHelper_roundtrip (c : Bytes) (hb : AllBytes c) (hl : c.length = MAX_PROOF) :
+    rangeProofHelper (some (toHexB c)) = .ok c := by
+  have h1 : ¬ c.length < MAX_PROOF := by omega
+  have h2 : c.take MAX_PROOF = c := by rw [← hl]; exact List.take_length
+  simp [rangeProofHelper, ofHex, utilFromHex_toHexB c hb, h1, h2]
+
+/-- the id parsers of the handlers never panic, for ALL strings; any length is padded / truncated -/
+theorem hashId_no_panic (s : Bytes) : hashIdFromHex s ≠ .panic := by
+  have hnp := GV.Dec.utilFromHex_noPanic s
+  unfold hashIdFromHex ofHex
+  cases hu : utilFromHex s with
+  | ok b => intro hc; cases hc
+  | err => intro hc; cases hc
+  | panic st => exact absurd hu (hnp st)
+
+theorem excessId_no_panic (s : Bytes) : excessIdFromHex s ≠ .panic := by
+  have hnp := GV.Dec.utilFromHex_noPanic s
+  unfold excessIdFromHex ofHex
+  cases hu : utilFromHex s with
+  | ok b =>
+    simp only
+    split <;> (intro hc; cases hc)
+  | err => intro hc; cases hc
+  | panic st => exact absurd hu (hnp st)
+
 /-! ## numbers -/
 
 /-- `parse::<u64>` refuses what does not fit -/
